@@ -229,6 +229,8 @@ class Models:
         return True
 
     def ordered_entries(self, m):
+        if getattr(m, 'ordered', False):       # BTreeMap / BTreeSet: key order, independent of any hash seed
+            return sorted(m.entries, key=lambda e: canon(e[0]))
         if self.I.map_order is not None: return self.I.map_order(self.I, m)
         return list(m.entries)
 
@@ -1143,6 +1145,50 @@ def _vec_extend(M, a, info):
     return UNIT
 
 
+@model('Vec::dedup')
+def _vec_dedup(M, a, info):
+    items = a[0].get().items
+    out = []
+    for x in items:
+        if out and M.I.branch(M.eq(out[-1], x)): continue
+        out.append(x)
+    items[:] = out
+    return UNIT
+
+
+@model('Vec::retain')
+def _vec_retain(M, a, info):
+    items = a[0].get().items
+    keep = [x for i, x in enumerate(list(items)) if M.I.branch(M.call_fn(a[1], [Ptr(items, i)]))]
+    items[:] = keep
+    return UNIT
+
+
+@model('Vec::truncate')
+def _vec_truncate(M, a, info):
+    n = M.I.concretize(a[1]); del a[0].get().items[n:]; return UNIT
+
+
+@model('Vec::remove')
+def _vec_remove(M, a, info):
+    items = a[0].get().items; i = M.I.concretize(a[1])
+    if not (0 <= i < len(items)): raise Panic('removal index (is %d) should be < len (is %d)' % (i, len(items)), 'Vec::remove')
+    return items.pop(i)
+
+
+@model('Vec::reverse', 'slice::reverse')
+def _vec_reverse(M, a, info):
+    s = a[0]
+    if type(s) is Ptr: s = _deref(M, [s], info)
+    seg = s.items[s.start:s.end]; seg.reverse(); s.items[s.start:s.end] = seg
+    return UNIT
+
+
+@model('Vec::append')
+def _vec_append(M, a, info):
+    src = a[1].get().items; a[0].get().items.extend(src); del src[:]; return UNIT
+
+
 @model('Vec::clear')
 def _vec_clear(M, a, info):
     del a[0].get().items[:]; return UNIT
@@ -1580,12 +1626,12 @@ def _collect_into(M, tgt, src, info):
     last = segs(h)[-1] if segs(h) else h
     if last == 'Vec' or h.startswith('['):
         return RVec(list(src))
-    if last == 'HashSet':
-        s = RSet()
+    if last in ('HashSet', 'BTreeSet'):
+        s = RSet(); s.ordered = (last == 'BTreeSet')
         for x in src: M.set_insert(s, x)
         return s
-    if last == 'HashMap':
-        m = RMap()
+    if last in ('HashMap', 'BTreeMap'):
+        m = RMap(); m.ordered = (last == 'BTreeMap')
         for x in src: M.map_insert(m, x.fields[0], x.fields[1])
         return m
     if last == 'String':
@@ -1751,3 +1797,446 @@ def _box_new_uninit(M, a, info):
 def _box_into_vec(M, a, info):
     arr = a[0].cell[0].fields[1].fields[0].fields[0]
     return RVec(list(arr.items))
+
+
+# ====================================================================== additional std models (contracts as documented in std)
+import functools
+
+
+def _ord_of(M, r):
+    """Ordering Adt -> -1/0/1"""
+    r = _opt(r)
+    return r.vidx - 1
+
+
+@model('slice::sort_by', 'slice::sort_unstable_by', 'Vec::sort_by')
+def _sort_by(M, a, info):
+    s = a[0]
+    if type(s) is Ptr: s = _deref(M, [s], info)
+    items = s.items; idx = list(range(s.start, s.end))
+    def cmp(i, j): return _ord_of(M, M.call_fn(a[1], [Ptr(items, i), Ptr(items, j)]))
+    seg = [items[i] for i in sorted(idx, key=functools.cmp_to_key(cmp))]
+    items[s.start:s.end] = seg
+    return UNIT
+
+
+@model('slice::sort_unstable_by_key')
+def _sort_unstable_by_key(M, a, info): return _slice_sort_by_key(M, a, info)
+
+
+@model('slice::binary_search')
+def _binary_search(M, a, info):
+    s = a[0]
+    if type(s) is Ptr: s = _deref(M, [s], info)
+    key = canon(a[1])
+    lst = [canon(x) for x in M.as_list(s)]
+    import bisect
+    i = bisect.bisect_left(lst, key)
+    return OK(i) if i < len(lst) and lst[i] == key else ERR(i)
+
+
+@model('slice::starts_with')
+def _slice_starts_with(M, a, info):
+    s = M.as_list(_deref(M, [a[0]], info) if type(a[0]) is Ptr else a[0]); p = M.as_list(_deref(M, [a[1]], info) if type(a[1]) is Ptr else a[1])
+    if len(p) > len(s): return False
+    return M.eq_seq(s[:len(p)], p)
+
+
+@model('slice::split_first', 'slice::split_last')
+def _split_first(M, a, info):
+    s = a[0]
+    if type(s) is Ptr: s = _deref(M, [s], info)
+    if s.end <= s.start: return NONE()
+    if info[1].endswith('split_first'): return SOME(Tup([Ptr(s.items, s.start), Slice(s.items, s.start + 1, s.end)]))
+    return SOME(Tup([Ptr(s.items, s.end - 1), Slice(s.items, s.start, s.end - 1)]))
+
+
+@model('slice::split_at')
+def _split_at(M, a, info):
+    s = a[0]
+    if type(s) is Ptr: s = _deref(M, [s], info)
+    n = M.I.concretize(a[1])
+    if n > s.end - s.start: raise Panic('mid > len', 'split_at')
+    return Tup([Slice(s.items, s.start, s.start + n), Slice(s.items, s.start + n, s.end)])
+
+
+@model('slice::windows', 'slice::chunks')
+def _windows(M, a, info):
+    s = a[0]
+    if type(s) is Ptr: s = _deref(M, [s], info)
+    n = M.I.concretize(a[1])
+    if n == 0: raise Panic('size is zero', 'windows')
+    if info[1].endswith('windows'):
+        return It(Slice(s.items, i, i + n) for i in range(s.start, s.end - n + 1))
+    return It(Slice(s.items, i, min(i + n, s.end)) for i in range(s.start, s.end, n))
+
+
+@model('slice::concat')
+def _slice_concat(M, a, info):
+    out = []
+    for x in M.as_list(_opt(a[0])):
+        x = _opt(x)
+        if type(x) in (str, SymStr):
+            out = concat_str(out if out != [] else '', x)
+        else: out = (out if out != [] else []) + list(M.as_list(x))
+    return out if isinstance(out, (str, SymStr)) else RVec(out)
+
+
+@model('Iterator::min', 'Iterator::min_by_key', 'Iterator::max_by_key')
+def _iter_minmax(M, a, info):
+    op = info[3]
+    items = list(_iterate(M, a[0]))
+    if not items: return NONE()
+    if op == 'min': keyf = lambda x: canon(x)
+    else: keyf = lambda x: canon(M.call_fn(a[1], [Ptr([x], 0)]))
+    keys = [keyf(x) for x in items]
+    if op in ('min', 'min_by_key'):
+        best = 0
+        for i in range(1, len(items)):
+            if keys[i] < keys[best]: best = i
+    else:
+        best = 0
+        for i in range(1, len(items)):
+            if keys[i] >= keys[best]: best = i       # max_by_key returns the last maximum
+    return SOME(items[best])
+
+
+@model('Iterator::nth')
+def _iter_nth(M, a, info):
+    n = M.I.concretize(a[1]); it = _opt(a[0]) if type(a[0]) is Ptr else a[0]
+    for i, x in enumerate(_iterate(M, it)):
+        if i == n: return SOME(x)
+    return NONE()
+
+
+@model('Iterator::take_while', 'Iterator::skip_while')
+def _iter_take_while(M, a, info):
+    src = _iterate(M, a[0]); f = a[1]; take = info[3] == 'take_while'
+    def gen():
+        dropping = True
+        for x in src:
+            if take:
+                if not M.I.branch(M.call_fn(f, [Ptr([x], 0)])): return
+                yield x
+            else:
+                if dropping and M.I.branch(M.call_fn(f, [Ptr([x], 0)])): continue
+                dropping = False
+                yield x
+    return It(gen())
+
+
+@model('Iterator::step_by')
+def _iter_step_by(M, a, info):
+    n = M.I.concretize(a[1]); src = _iterate(M, a[0])
+    return It(x for i, x in enumerate(src) if i % n == 0)
+
+
+@model('Iterator::peekable', 'Iterator::fuse')
+def _iter_peekable(M, a, info): return a[0] if type(a[0]) is It else It(_iterate(M, a[0]))
+
+
+@model('Iterator::unzip')
+def _iter_unzip(M, a, info):
+    l = []; r = []
+    for x in _iterate(M, a[0]): l.append(x.fields[0]); r.append(x.fields[1])
+    return Tup([RVec(l), RVec(r)])
+
+
+@model('Iterator::rposition')
+def _iter_rposition(M, a, info):
+    items = list(_iterate(M, _opt(a[0]) if type(a[0]) is Ptr else a[0]))
+    for i in range(len(items) - 1, -1, -1):
+        if M.I.branch(M.call_fn(a[1], [items[i]])): return SOME(i)
+    return NONE()
+
+
+@model('Iterator::product')
+def _iter_product(M, a, info):
+    ity = int_type_of(clean_type(last_generic(info[-1]) or 'usize')) or (64, False)
+    acc = 1
+    for x in _iterate(M, a[0]):
+        v = x.get() if type(x) is Ptr else x
+        r = M.I.binop('MulWithOverflow', acc, v, ity)
+        if M.I.branch(r.fields[1]): raise Panic('attempt to multiply with overflow', 'Iterator::product')
+        acc = r.fields[0]
+    return acc
+
+
+@model('iter::repeat', 'repeat')
+def _iter_repeat(M, a, info):
+    def gen():
+        while True: yield M.clone(a[0])
+    return It(gen())
+
+
+@model('iter::zip', 'zip')
+def _iter_zip_fn(M, a, info):
+    return It(Tup([x, y]) for x, y in zip(_iterate(M, a[0]), _iterate(M, a[1])))
+
+
+@model('Option::map_or')
+def _option_map_or(M, a, info):
+    return M.call_fn(a[2], [a[0].fields[0]]) if a[0].vidx == 1 else a[1]
+
+
+@model('Option::map_or_else')
+def _option_map_or_else(M, a, info):
+    return M.call_fn(a[2], [a[0].fields[0]]) if a[0].vidx == 1 else M.call_fn(a[1], [])
+
+
+@model('Option::and')
+def _option_and(M, a, info): return a[1] if a[0].vidx == 1 else NONE()
+
+
+@model('Option::xor')
+def _option_xor(M, a, info):
+    if a[0].vidx == 1 and a[1].vidx == 0: return a[0]
+    if a[0].vidx == 0 and a[1].vidx == 1: return a[1]
+    return NONE()
+
+
+@model('Option::zip')
+def _option_zip(M, a, info):
+    return SOME(Tup([a[0].fields[0], a[1].fields[0]])) if a[0].vidx == 1 and a[1].vidx == 1 else NONE()
+
+
+@model('Option::replace')
+def _option_replace(M, a, info):
+    old = a[0].get(); a[0].set(SOME(a[1])); return old
+
+
+@model('Option::is_none_or')
+def _option_is_none_or(M, a, info):
+    return True if a[0].vidx == 0 else M.call_fn(a[1], [a[0].fields[0]])
+
+
+@model('Result::unwrap_or_else')
+def _result_unwrap_or_else(M, a, info):
+    return a[0].fields[0] if a[0].vidx == 0 else M.call_fn(a[1], [a[0].fields[0]])
+
+
+@model('Result::or_else')
+def _result_or_else(M, a, info):
+    return a[0] if a[0].vidx == 0 else M.call_fn(a[1], [a[0].fields[0]])
+
+
+@model('Result::ok_or', 'Result::err')
+def _result_err(M, a, info):
+    return SOME(a[0].fields[0]) if a[0].vidx == 1 else NONE()
+
+
+@model('Result::map_or')
+def _result_map_or(M, a, info):
+    return M.call_fn(a[2], [a[0].fields[0]]) if a[0].vidx == 0 else a[1]
+
+
+@model('mem::take')
+def _mem_take(M, a, info):
+    p = a[0]; old = p.get(); p.set(M.default_for(last_generic(info[-1]) or 'Vec')); return old
+
+
+@model('mem::replace')
+def _mem_replace(M, a, info):
+    p = a[0]; old = p.get(); p.set(a[1]); return old
+
+
+@model('mem::swap')
+def _mem_swap(M, a, info):
+    x = a[0].get(); a[0].set(a[1].get()); a[1].set(x); return UNIT
+
+
+@model('cmp::max', 'cmp::min')
+def _cmp_max(M, a, info):
+    x, y = a
+    mx = info[1].endswith('max')
+    if not is_sym(x) and not is_sym(y): return (max(x, y) if mx else min(x, y))
+    ity = int_type_of(clean_type(last_generic(info[-1]) or 'usize')) or (64, False)
+    w, s = ity
+    zx = bv(x, w); zy = bv(y, w)
+    gt = (zx > zy) if s else z3.UGT(zx, zy)
+    return z3.If(gt, zx, zy) if mx else z3.If(gt, zy, zx)
+
+
+def _int_unary(name):
+    def deco(fn):
+        for t in ('usize', 'isize', 'u8', 'u16', 'u32', 'u64', 'i8', 'i16', 'i32', 'i64'):
+            TABLE[t + '::' + name] = fn
+        return fn
+    return deco
+
+
+@_int_unary('min')
+def _int_min(M, a, info):
+    w, s = _int_ty(info); x, y = _opt(a[0]), _opt(a[1])
+    if not is_sym(x) and not is_sym(y): return min(x, y)
+    zx = bv(x, w); zy = bv(y, w)
+    return z3.If((zx <= zy) if s else z3.ULE(zx, zy), zx, zy)
+
+
+@_int_unary('max')
+def _int_max(M, a, info):
+    w, s = _int_ty(info); x, y = _opt(a[0]), _opt(a[1])
+    if not is_sym(x) and not is_sym(y): return max(x, y)
+    zx = bv(x, w); zy = bv(y, w)
+    return z3.If((zx >= zy) if s else z3.UGE(zx, zy), zx, zy)
+
+
+@_int_unary('abs_diff')
+def _abs_diff(M, a, info):
+    w, s = _int_ty(info); x, y = _opt(a[0]), _opt(a[1])
+    if not is_sym(x) and not is_sym(y): return abs(x - y)
+    zx = bv(x, w); zy = bv(y, w)
+    return z3.If((zx >= zy) if s else z3.UGE(zx, zy), zx - zy, zy - zx)
+
+
+@_int_unary('is_multiple_of')
+def _is_multiple_of(M, a, info):
+    x, y = _opt(a[0]), _opt(a[1])
+    if not is_sym(x) and not is_sym(y): return (x == 0) if y == 0 else x % y == 0
+    zx = bv(x, 64); zy = bv(y, 64)
+    return z3.If(zy == 0, zx == 0, z3.URem(zx, zy) == 0)
+
+
+@_int_unary('div_ceil')
+def _div_ceil(M, a, info):
+    w, s = _int_ty(info); x, y = _opt(a[0]), _opt(a[1])
+    if M.I.branch((y == 0) if not is_sym(y) else (bv(y, w) == 0)): raise Panic('attempt to divide by zero', 'div_ceil')
+    if not is_sym(x) and not is_sym(y): return -(-x // y)
+    zx = bv(x, w); zy = bv(y, w)
+    q = z3.UDiv(zx, zy)
+    return z3.If(z3.URem(zx, zy) == 0, q, q + 1)
+
+
+@_int_unary('next_multiple_of')
+def _next_multiple_of(M, a, info):
+    w, s = _int_ty(info); x, y = _opt(a[0]), _opt(a[1])
+    if M.I.branch((y == 0) if not is_sym(y) else (bv(y, w) == 0)): raise Panic('attempt to calculate the remainder with a divisor of zero', 'next_multiple_of')
+    rem = M.I.binop('Rem', x, y, (w, s))
+    if M.I.branch((rem == 0) if not is_sym(rem) else (rem == 0)): return x
+    d = M.I.binop('Sub', y, rem, (w, s))
+    r = M.I.binop('AddWithOverflow', x, d, (w, s))
+    if M.I.branch(r.fields[1]): raise Panic('attempt to add with overflow', 'next_multiple_of')
+    return r.fields[0]
+
+
+@_int_unary('trailing_zeros')
+def _trailing_zeros(M, a, info):
+    w, s = _int_ty(info); x = _opt(a[0])
+    if not is_sym(x):
+        x &= MASK[w]
+        return w if x == 0 else (x & -x).bit_length() - 1
+    r = z3.BitVecVal(w, 32)
+    for i in range(w - 1, -1, -1):
+        r = z3.If(z3.Extract(i, i, x) == 1, z3.BitVecVal(i, 32), r)
+    return r
+
+
+@_int_unary('count_ones')
+def _count_ones(M, a, info):
+    w, s = _int_ty(info); x = _opt(a[0])
+    if not is_sym(x): return bin(x & MASK[w]).count('1')
+    r = z3.BitVecVal(0, 32)
+    for i in range(w): r = r + z3.ZeroExt(31, z3.Extract(i, i, x))
+    return r
+
+
+@_int_unary('checked_div')
+def _checked_div(M, a, info):
+    w, s = _int_ty(info); x, y = _opt(a[0]), _opt(a[1])
+    if M.I.branch((y == 0) if not is_sym(y) else (bv(y, w) == 0)): return NONE()
+    return SOME(M.I.binop('Div', x, y, (w, s)))
+
+
+@_int_unary('checked_rem')
+def _checked_rem(M, a, info):
+    w, s = _int_ty(info); x, y = _opt(a[0]), _opt(a[1])
+    if M.I.branch((y == 0) if not is_sym(y) else (bv(y, w) == 0)): return NONE()
+    return SOME(M.I.binop('Rem', x, y, (w, s)))
+
+
+@_int_unary('checked_next_power_of_two')
+def _checked_npo2(M, a, info):
+    x = _opt(a[0])
+    if is_sym(x): raise Unsupported('checked_next_power_of_two on a symbolic value')
+    p = 1
+    while p < x: p <<= 1
+    return SOME(p) if p <= MASK[64] else NONE()
+
+
+for _o, _mir in (('overflowing_add', 'AddWithOverflow'), ('overflowing_sub', 'SubWithOverflow'), ('overflowing_mul', 'MulWithOverflow')):
+    def _mko(mirop):
+        def fn(M, a, info):
+            return M.I.binop(mirop, _opt(a[0]), _opt(a[1]), _int_ty(info))
+        return fn
+    for _t in ('usize', 'isize', 'u8', 'u16', 'u32', 'u64', 'i8', 'i16', 'i32', 'i64'):
+        TABLE[_t + '::' + _o] = _mko(_mir)
+
+
+@model('usize::saturating_add', 'usize::saturating_mul')
+def _saturating(M, a, info):
+    op = 'AddWithOverflow' if info[1].endswith('add') else 'MulWithOverflow'
+    r = M.I.binop(op, _opt(a[0]), _opt(a[1]), (64, False))
+    ovf = r.fields[1]
+    if ovf is True: return MASK[64]
+    if ovf is False: return r.fields[0]
+    return z3.If(ovf, z3.BitVecVal(MASK[64], 64), bv(r.fields[0], 64))
+
+
+@model('str::contains')
+def _str_contains(M, a, info):
+    s = M.as_str(a[0]); p = a[1]
+    while type(p) is Ptr: p = p.get()
+    if isinstance(p, int): p = chr(p)
+    if type(s) is SymStr: raise Unsupported('contains on symbolic string')
+    return M.as_str(p) in s
+
+
+@model('str::strip_prefix', 'str::strip_suffix')
+def _str_strip(M, a, info):
+    s = M.as_str(a[0]); p = M.as_str(a[1])
+    if type(s) is SymStr: raise Unsupported('strip on symbolic string')
+    if info[1].endswith('prefix'): return SOME(s[len(p):]) if s.startswith(p) else NONE()
+    return SOME(s[:len(s) - len(p)]) if s.endswith(p) else NONE()
+
+
+@model('str::to_lowercase')
+def _str_lower(M, a, info): return M.as_str(a[0]).lower()
+
+
+@model('str::chars')
+def _str_chars(M, a, info): return It(iter([ord(c) for c in M.as_str(a[0])]))
+
+
+@model('str::rsplit', 'str::split_whitespace')
+def _str_rsplit(M, a, info):
+    s = M.as_str(a[0])
+    if info[1].endswith('split_whitespace'): return It(iter(s.split()))
+    return It(iter(list(reversed(s.split(M.as_str(a[1]))))))
+
+
+@model('String::with_capacity')
+def _string_with_capacity(M, a, info): return ''
+
+
+@model('String::insert_str')
+def _string_insert_str(M, a, info):
+    p = a[0]; i = M.I.concretize(a[1]); s = p.get()
+    if type(s) is SymStr: raise Unsupported('insert_str on symbolic string')
+    p.set(s[:i] + M.as_str(a[2]) + s[i:]); return UNIT
+
+
+# ---- ordered maps/sets: same entry model, iteration in key order (never subject to the hash-order hook)
+@model('BTreeMap::new')
+def _btm_new(M, a, info):
+    m = RMap(); m.ordered = True; return m
+
+
+@model('BTreeSet::new')
+def _bts_new(M, a, info):
+    s = RSet(); s.ordered = True; return s
+
+
+for _n in ('insert', 'get', 'get_mut', 'contains_key', 'remove', 'len', 'is_empty', 'entry', 'iter', 'values', 'values_mut', 'keys', 'iter_mut', 'into_iter'):
+    if 'HashMap::' + _n in TABLE: TABLE['BTreeMap::' + _n] = TABLE['HashMap::' + _n]
+for _n in ('insert', 'contains', 'remove', 'len', 'is_empty', 'iter'):
+    if 'HashSet::' + _n in TABLE: TABLE['BTreeSet::' + _n] = TABLE['HashSet::' + _n]
